@@ -29,6 +29,27 @@ theorem mem_selectSeries (serve : Labels → Labels) (ms : List Matcher) (series
     refine ⟨s, hs, ?_⟩
     simp [hm, hc, he]
 
+theorem mem_selected (blocks : List Block) (r : Req) (b : Block) (h : b ∈ selected blocks r) :
+    b ∈ blocks.filter (blockOverlaps · r.mint r.maxt) := by
+  unfold selected at h
+  split at h
+  · simp at h
+  · exact h
+
+theorem filterMap_congr' {α β : Type} {f g : α → Option β} : ∀ {l : List α}, (∀ a ∈ l, f a = g a) →
+    l.filterMap f = l.filterMap g
+  | [], _ => rfl
+  | a :: l, h => by
+    simp only [List.filterMap_cons]
+    rw [h a (by simp), filterMap_congr' (fun x hx => h x (List.mem_cons_of_mem _ hx))]
+
+theorem flatMap_congr' {α β : Type} {f g : α → List β} : ∀ {l : List α}, (∀ a ∈ l, f a = g a) →
+    l.flatMap f = l.flatMap g
+  | [], _ => rfl
+  | a :: l, h => by
+    simp only [List.flatMap_cons]
+    rw [h a (by simp), flatMap_congr' (fun x hx => h x (List.mem_cons_of_mem _ hx))]
+
 theorem mem_insertNat (x : Nat) : ∀ (l : List Nat) (y : Nat), y ∈ insertNat x l ↔ y = x ∨ y ∈ l
   | [], y => by simp [insertNat]
   | z :: zs, y => by
